@@ -681,6 +681,7 @@ def run(ctx, rep):
     prelude.r01p(ctx, rep)
     prelude.r01r(ctx, rep)
     prelude.r01s(ctx, rep)
+    prelude.r01u(ctx, rep)
     r01i(ctx, rep)
     r01j(ctx, rep)
     r01m(ctx, rep)
